@@ -8,6 +8,24 @@ TB = "Trusted: Go 1.23.5 stdlib, circl v1.3.7, go-hpke, x/crypto, rapid v1.3.0, 
 
 # id -> (technique, level text, design_ref, extra note)
 CLAIMS = {
+ "C02": ("rapid PBT of attacker transformations of honest responses with a MUST-REJECT / SUCCESS-IMPLIES-VALID oracle; exhaustive single-bit sweep per sampled run",
+         "Each case draws two outstanding requests under one key plus a response under a foreign key (type 3: a second issuer with the same name key and another token key), then hands the client bit-flipped, cross-wired, foreign-key, dropped/duplicated/swapped (type 5), truncated, extended, zeroed, random and re-framed responses. Success is only allowed outside the MUST-REJECT classes and only with tokens that verify independently under the pinned key and carry the request's nonce, digest and key id. Every bit position of a response is swept per type.",
+         "DESIGN.md section 4 C02", "Concrete attacker moves listed in the property, not all adversaries; unforgeability of circl/stdlib primitives is assumed."),
+ "C05": ("model-based rapid PBT over batch compositions and issuer configurations, with a metamorphic isolation relation",
+         "Issuer sets (0..2 type-1 and 0..2 type-2 issuers, distinct truncated ids by construction) and batches over {known key, unknown key, malformed element/message, unsupported type} are generated; the model computes per-request presence by calling the per-type issuer directly; the response must decode to one entry per request in order, presence must match, present entries must finalize to verifying tokens, and the good requests alone must give the same deterministic response parts. In-memory and wire paths.",
+         "DESIGN.md section 4 C05", "Truncated key-id collisions between same-type issuers are outside the domain (no implementation can satisfy the property there); skips are counted."),
+ "C10": ("exhaustive single-bit sweep + generated field variants against the circl FullEvaluate oracle",
+         "For drawn type-1 and type-5 tokens: every single-bit variant, foreign keys, the other type's issuer (with/without type rewrite), moved field boundaries, truncated/extended authenticators and replaced fields are verified; the verdict must equal 'authenticator == VOPRF_key(type||nonce||context||key id)' computed through circl directly, in both directions.",
+         "DESIGN.md section 4 C10", "VOPRF evaluation reference is circl itself (independent of pat-go, not of circl)."),
+ "C11": ("metamorphic rapid PBT over pairs of blinds (same arguments => same bytes; other blind => other request, same token) + byte-exact replay of the Rust interop vectors",
+         "Keys, challenges, nonces, salts and pairs of distinct blinds are drawn for types 1, 2, 5; requests must be reproducible and blind-dependent, tokens reproducible and blind-independent. Every shipped Rust vector is rebuilt from its blind/salt (keys parsed without pat-go) and must match token_request and token byte for byte.",
+         "DESIGN.md section 4 C11", ""),
+ "C18": ("rapid PBT against a hand-written DER template (validated against the Rust implementation's SPKI) and independent key-id recomputation",
+         "RSA keys drawn as numbers (1..4200-bit moduli around every DER length-form and leading-zero boundary, small/large exponents) must round-trip through both SPKI forms and equal the prescribed RSASSA-PSS DER; issuers of all four types must report SHA-256 of a serialization recomputed without pat-go; requests must carry the last id byte resp. SHA-256 of the 39-byte name key.",
+         "DESIGN.md section 4 C18", "ristretto255 serialization reference is circl."),
+ "C20": ("bounded-exhaustive enumeration of name lengths + rapid PBT of near-miss names with a metamorphic size law",
+         "Every name length 0..130 (thorough 0..4096) and every 32-multiple +-1 to 4096 (thorough: up to the 65228-byte wire maximum) is requested against an issuer that registered exactly that name (must serve) and against one that registered only near-misses (must refuse); names needing the same number of 32-byte blocks must give equal wire lengths, different block counts different lengths. Drawn names add content variety (interior NULs, non-ASCII) and near-miss requests against the exact name.",
+         "DESIGN.md section 4 C20", ""),
  "C01": ("rapid PBT of complete wire runs per token type against independent verification (circl FullEvaluate, crypto/rsa.VerifyPSS) and a byte-level token layout oracle",
          "Generated honest runs of all four token types in which request and response cross the wire as copied bytes into fresh objects; keys, challenges of any length, nonces, batch sizes (incl. varint-boundary sizes), origin names, client randomness (DRBG seeded from drawn values) and the WithBlind entry points are all drawn. Exploration: the property is a for-all over inputs with a cheap exact oracle.",
          "DESIGN.md section 4 C01", ""),
